@@ -4,7 +4,7 @@ from vlib.cfg import Cfg, DefUse, Slice, ref_chain
 from vlib.cond import switch_cond, bool_edges, variant_edge
 from vlib.facts import AnchorMissing
 
-from .roles import listen_worker, pool_worker
+from .roles import job_calls, listen_worker, pool_worker
 POOLW = "server::Worker::new::{closure#0}"
 INTERIOR = ("Cell<", "RefCell<", "Mutex<", "RwLock<", "Atomic", "UnsafeCell<", "OnceCell<", "OnceLock<", "LazyLock<", "mpsc::", "Condvar")
 
@@ -118,7 +118,7 @@ def r3(cx):
     pw = pool_worker(cx)
     cx.saw(pw)
     cfg = Cfg(pw); du = DefUse(pw)
-    jobs = pw.calls("=call_box") or [t for t in pw.calls() if t.callee.indirect]
+    jobs = job_calls(pw)
     if not jobs: raise AnchorMissing("pool worker: job call")
     held = guards_alive_at(pw, cfg, du, jobs[0].bb)
     cx.check(not held, "C13.R3", "varlink:pool-worker:no-lock-across-job", "%s %s" % (jobs[0].sp, pw.path),
@@ -221,8 +221,9 @@ def r5(cx):
     from .C14 import counter_ops
     n = 0
     wk = pool_worker(cx)
+    spliced = {d[0] for d in getattr(wk, "desugared", [])}          # closures written out in the worker's own view are judged there
     for b in cx.mir.bodies("varlink"):
-        if b.promoted is not None or "server.rs" not in b.sp: continue
+        if b.promoted is not None or "server.rs" not in b.sp or b.path in spliced: continue
         du = DefUse(b)
         decs = [s for k, s in counter_ops(b, du) if k == "dec"]
         if not decs: continue
@@ -235,7 +236,7 @@ def r5(cx):
                 cx.bad("C13.R5", key, site, "the busy counter is released in %s%s: a job that panics kills its worker thread, yet the slot is given back, so the pool counts the dead worker as idle and later connections wait for a worker that no longer exists" % (b.path, " (a destructor, which also runs during unwinding)" if "Drop" in b.path else ""))
                 continue
             cfg = Cfg(b, unwind=True)
-            jobs = [t for t in b.calls("=call_box")] or [t for t in b.calls() if t.callee.indirect]
+            jobs = job_calls(b)
             if not jobs: raise AnchorMissing("pool worker: job call")
             unwind_targets = [dst for lab, dst in cfg.succ[jobs[0].bb] if lab == "unwind"]
             on_unwind = any(d.bb in cfg.reach(u) for u in unwind_targets)
